@@ -168,8 +168,8 @@ macro_rules! ans_io_harnesses {
                     let mut i = 0; while i < n { assert!(g.buf[i] == spec[i], "C08: get_compressed view differs from what finishing the encoder would return"); i += 1; }
                 }
                 let (b1, s1) = c.into_raw_parts();
-                assert!(s1 == state && b1.n == bulk.n, "C08: dropping the get_compressed view did not restore the coder");
-                let mut i = 0; while i < bulk.n { assert!(b1.buf[i] == bulk.buf[i], "C08: dropping the get_compressed view changed the bulk"); i += 1; }
+                assert!(s1 == state && b1.n == bulk.n, "C08/C01: dropping the get_compressed view did not restore the coder");
+                let mut i = 0; while i < bulk.n { assert!(b1.buf[i] == bulk.buf[i], "C08/C01: dropping the get_compressed view changed the bulk"); i += 1; }
             }
 
             /// C07: pos() == (backend position, state); seek((p, s)) truncates the stack backend to p and
@@ -379,4 +379,48 @@ pub fn views_u8_u16() {
     // the encoder itself is untouched by all of the above (they take &self or a clone)
     let (b0, s0) = c.into_raw_parts();
     assert!(s0 == state && b0.len() == n, "C08: inspecting changed the encoder");
+}
+
+/// C01/C04: the slice / reversed constructors are the same coder as the owning ones:
+/// from_compressed_slice(d), from_binary_slice(d), from_reversed_binary(rev d) have the state
+/// and the remaining words that from_compressed / from_binary leave for the same words.
+#[cfg_attr(kani, kani::proof)]
+#[cfg_attr(kani, kani::unwind(8))]
+pub fn slice_constructors_u8_u16() {
+    use constriction::backends::ReadWords;
+    use constriction::Stack;
+    let n: usize = any(); assume(n <= 3);
+    let d = any_arr::<u8, 3>();
+    let grp = group(3);
+    // reference: owning constructors over the array backend
+    let mut a = ArrStack::<u8, 4>::default(); let mut i = 0; while i < n { a.buf[i] = d[i]; i += 1; } a.n = n;
+    if grp == 0 {
+        let r = AnsCoder::<u8, u16, ArrStack<u8, 4>>::from_compressed(a);
+        let s = AnsCoder::<u8, u16, _>::from_compressed_slice(&d[..n]);
+        match (r, s) {
+            (Ok(r), Ok(s)) => {
+                let (rb, rs) = r.into_raw_parts(); let (mut sb, ss) = s.into_raw_parts();
+                assert!(rs == ss, "C01: from_compressed_slice has a different state than from_compressed");
+                let mut i = rb.n; while i > 0 { assert!(matches!(ReadWords::<u8, Stack>::read(&mut sb), Ok(Some(x)) if x == rb.buf[i - 1]), "C01: from_compressed_slice leaves different words than from_compressed"); i -= 1; }
+                assert!(matches!(ReadWords::<u8, Stack>::read(&mut sb), Ok(None)), "C01: from_compressed_slice leaves more words than from_compressed");
+            }
+            (Err(_), Err(_)) => {}
+            _ => assert!(false, "C01: from_compressed_slice and from_compressed disagree on accepting the data"),
+        }
+    } else {
+        let r = match AnsCoder::<u8, u16, ArrStack<u8, 4>>::from_binary(a) { Ok(r) => r, Err(_) => return };
+        let (rb, rs) = r.into_raw_parts();
+        if grp == 1 {
+            let (mut sb, ss) = AnsCoder::<u8, u16, _>::from_binary_slice(&d[..n]).into_raw_parts();
+            assert!(rs == ss, "C04/C01: from_binary_slice has a different state than from_binary");
+            let mut i = rb.n; while i > 0 { assert!(matches!(ReadWords::<u8, Stack>::read(&mut sb), Ok(Some(x)) if x == rb.buf[i - 1]), "C04/C01: from_binary_slice leaves different words than from_binary"); i -= 1; }
+            assert!(matches!(ReadWords::<u8, Stack>::read(&mut sb), Ok(None)), "C04/C01: from_binary_slice leaves more words than from_binary");
+        } else {
+            let mut rev = [0u8; 3]; let mut i = 0; while i < n { rev[i] = d[n - 1 - i]; i += 1; }
+            let (mut sb, ss) = AnsCoder::<u8, u16, _>::from_reversed_binary(&rev[..n]).into_raw_parts();
+            assert!(rs == ss, "C04/C01: from_reversed_binary of the reversed data has a different state than from_binary");
+            let mut i = rb.n; while i > 0 { assert!(matches!(ReadWords::<u8, Stack>::read(&mut sb), Ok(Some(x)) if x == rb.buf[i - 1]), "C04/C01: from_reversed_binary leaves different words than from_binary"); i -= 1; }
+            assert!(matches!(ReadWords::<u8, Stack>::read(&mut sb), Ok(None)), "C04/C01: from_reversed_binary leaves more words than from_binary");
+        }
+    }
 }
